@@ -313,7 +313,7 @@ def gen_scenario(rng, idx, thorough):
                 for t in tw:
                     fn_i += 1
                     tside = rng.choice(["lmtp", "imap"])
-                    steps.append(("store", tside, [], [("", b"see attachment", ""), ("base64", t, "t%d.bin" % fn_i)], False, ["alice"]))
+                    steps.append(("store", tside, [], [("", b"see attachment" + (b"\r\n" if rng.random() < 0.5 else b""), ""), ("base64", t, "t%d.bin" % fn_i)], False, ["alice"]))
                     stored.append(t)
                 steps.append(("reads", "live"))
         writer_s3 = cfg[side]
